@@ -2,7 +2,9 @@
 //! /repo's working tree).  `gen <family> <size> <seed>` prints case lines; `exec` reads case
 //! lines from stdin and prints one `O <observation>` line per case, in order.
 
+mod alloc;
 mod exec_parallel;
+mod exec_iter;
 mod exec_reader;
 mod exec_write;
 mod gen;
@@ -10,9 +12,14 @@ mod util;
 
 use std::io::{self, BufRead, Write};
 
+#[global_allocator]
+static GLOBAL: alloc::Counting = alloc::Counting;
+
 fn exec_line(line: &str) -> String {
-    if line.starts_with("R ") {
+    if line.starts_with("R ") || line.starts_with("A ") {
         exec_reader::run_case(line)
+    } else if line.starts_with("I ") {
+        exec_iter::run_case(line)
     } else if line.starts_with("W ") {
         exec_write::run_case(line)
     } else if line.starts_with("X ") {
